@@ -38,6 +38,7 @@ from __future__ import annotations
 import hashlib
 import json
 import logging
+import math
 import re
 import threading
 import time
@@ -124,6 +125,19 @@ class TokenIdentity:
 #: is unknown, and a caller that negative-caches the second must not cache the
 #: first.
 TokenResolver = Callable[[str], "TokenIdentity | None"]
+
+
+def _is_valid_ttl(ttl: object) -> bool:
+    """Return whether *ttl* is a finite, positive number (WIRE_PROTOCOL §16).
+
+    ``bool`` is refused although it is an ``int``: ``True`` serializes as JSON
+    ``true``, not as a number.
+    """
+    if isinstance(ttl, bool) or not isinstance(ttl, (int, float)):
+        return False
+    if isinstance(ttl, float) and not math.isfinite(ttl):
+        return False
+    return ttl > 0
 
 
 class _RateLimiter:
@@ -311,6 +325,20 @@ class _TokenIntrospectionResource:
             )
             self._refuse(resp, HTTPStatus.NOT_FOUND, "unresolved")
             return
+
+        if not _is_valid_ttl(identity.ttl_seconds):
+            # A resolver bug, not a property of the credential: the principal
+            # did resolve, so 404 (definitive, negative-cacheable) would be
+            # wrong, and a 200 carrying this TTL would break the caller's cache
+            # (NaN never expires "later", 0 and negatives never cache, Infinity
+            # is not even JSON).  Fail the request as a server error, which a
+            # caller must not cache.
+            _logger.error(
+                "introspection: resolver returned an invalid ttl_seconds (%r)",
+                identity.ttl_seconds,
+                extra={"principal": caller, "token_digest": digest},
+            )
+            raise falcon.HTTPInternalServerError(description="token resolver returned an invalid ttl_seconds")
 
         _logger.info(
             "introspection: resolved",
